@@ -22,7 +22,7 @@ func NewKeyGen(r *rand.Rand, n int) *KeyGen {
 		}
 		if !seen[string(k)] {
 			seen[string(k)] = true
-			g.Pool = append(g.Pool, append([]byte(nil), k...))
+			g.Pool = append(g.Pool, append([]byte{}, k...)) // never nil: the empty key is a real key
 		}
 	}
 	add([]byte{})
